@@ -64,7 +64,7 @@ func checkC05(c C05Case, env *Env) *Violation {
 				env.Stats.mu.Unlock()
 				continue
 			}
-			if gate("c05-bracket-quote") && kfBracketQuote(f.Text, o.Name.Off) {
+			if (gate("c05-bracket-quote") && kfBracketQuote(f.Text, o.Name.Off)) || (gate("c05-glued-bracket") && kfGluedBracket(f.Text, o.Name.Off)) {
 				excludedIn(env)
 				continue
 			}
